@@ -26,7 +26,7 @@ DOCUMENTED_KEYS = {
 
 
 def mk_project(rng):
-    locales = rng.sample(["en", "fr", "de", "ja"], rng.range(1, 3))
+    locales = rng.sample(["en", "fr", "de", "ja", "en-GB", "fr-CA", "pt-BR", "pt-PT"], rng.range(1, 4))      # (also several locales of one language)
     default = locales[0]
     namespaces = rng.pick([None, None, ["common", "home"], rng.shuffle(rng.sample(["account", "common", "home", "legal", "shop"], rng.range(2, 4)))])
     # up to every family at once (the five options), spread over the namespaces
@@ -186,6 +186,11 @@ def run(ctx):
             report_violation(ctx, "icu:namespaces-differ", {"case": project_text(p), "expected_by_spec": cfg["namespaces"], "implementation": r["namespaces"]})
         if isinstance(r["langids"], dict):
             report_violation(ctx, "icu:get_locales_langids-panics", {"case": project_text(p), "locales": r["locales"]})
+        elif "icu" in p and sorted(x.lower() for x in r["langids"]) != sorted(x.lower() for x in p["locales"]):
+            # the language identifiers handed to the datagen driver (generated locale names are plain language[-REGION] tags: their own
+            # canonical form): one per configured locale — two locales of one language are two locales
+            report_violation(ctx, "icu:locale-identifiers-differ", {"case": project_text(p), "expected_by_spec": sorted(p["locales"]), "implementation": r["langids"],
+                                                                   "harness": "build_h icu (get_locales_langids, what the datagen driver is configured with)"})
     ctx.sample({"files": proj.file_list(projects[0]), "plan": projects[0]["icu"], "keys": impl[0].get("keys", [])[:5]})
     ctx.assumptions += PARSER_ASSUMPTIONS + ["that the listed data keys suffice for ICU4X at run time (last sentence of the property) depends on ICU's key tables: oracle"]
     finish_broken(ctx, f"{len(projects)} projects through the build helper")
